@@ -462,6 +462,41 @@ R.contract(
     replayable=False,
 )
 
+
+# ------------------------------------------------------------------------------------------------- Case.call_and_validate: the response that is validated is the one of THIS call, with the caller's options
+R.nominal_methods["spec:CallAndValidateCase"] = {
+    "call": lambda it, obj, a, k: (it.ghost.__setitem__("log", it.ghost["log"] + [("call", tuple(a), dict(k))]) or it.ghost.__setitem__("response", fresh_opaque(it, "ResponseRef")) or it.ghost["response"]),
+    "validate_response": lambda it, obj, a, k: it.ghost.__setitem__("log", it.ghost["log"] + [("validate", tuple(a), dict(k))]),
+}
+
+
+def _cav_setup(it):
+    from pyvc.verify import locate
+
+    _, _, fn = locate(it, CASE14 + "Case.call_and_validate")
+    return fn, {}
+
+
+R.contract(
+    CASE14 + "Case.call_and_validate",
+    prop="C14",
+    setup=_cav_setup,
+    args={"self": Obj("spec:CallAndValidateCase"), "base_url": Opt(Str), "session": OneOf(NoneT, Opq("SessionRef")), "headers": OneOf(NoneT, Opq("HeadersRef")), "checks": OneOf(NoneT, Opq("Checks")),
+          "additional_checks": OneOf(NoneT, Opq("MoreChecks")), "excluded_checks": OneOf(NoneT, Opq("ExcludedChecks")), "kwargs": DictOf(optional={"timeout": Int, "verify": Bool})},
+    ghost={"log": [], "response": None},
+    raises=[],
+    ensures={
+        "sent_with_the_callers_session_headers_and_options": "ghost('log')[0][0] == 'call' and same(ghost('log')[0][1][0], base_url) and same(ghost('log')[0][1][1], session) and same(ghost('log')[0][1][2], headers) and "
+                                                             "ghost('log')[0][2] == old(dict(kwargs))",
+        "the_response_of_this_call_is_validated_with_the_same_headers_and_options": "length(ghost('log')) == 2 and ghost('log')[1][0] == 'validate' and ghost('log')[1][1][0] is ghost('response') and "
+            "same(ghost('log')[1][1][1], checks) and same(ghost('log')[1][2]['headers'], headers) and same(ghost('log')[1][2]['additional_checks'], additional_checks) and "
+            "same(ghost('log')[1][2]['excluded_checks'], excluded_checks) and ghost('log')[1][2]['transport_kwargs'] == old(dict(kwargs))",
+        "the_response_is_returned": "result is ghost('response')",
+    },
+    bounded_note="two transport options",
+    replayable=False,
+)
+
 LEVEL_TEXT = ("Deductive: header precedence, override restriction (loop invariant over any number of parameters) and the token cache's double-checked lock "
               "under an explicit rely condition (cache havoced at lock acquisition) are postconditions on the real functions, discharged by z3.")
 LEVEL_NOTE = "Trusted: CaseInsensitiveDict, threading.Lock as synchronisation point (rely), frozen timer, pyvc semantics (E9). Free interleavings are not decided."
